@@ -11,9 +11,15 @@ CHECKS = {
  "C02": ("property-based perturbation of well-typed programs + strict (tag-checking) reference run + Lua error class",
          "Well-typed generated programs are perturbed into almost-well-typed ones (13 perturbation kinds); whatever the checker still accepts is executed under a strict reference interpreter that checks operand tags, and under mini-Lua; a dynamic type error, a Lua error other than assert/<!>, or a trace disagreement is a violation.",
          "trusted: strict reference interpreter's typing rules (arith/compare/call/field/variant/cond/unbound), mini-Lua; rejections by the compiler are not judged"),
- "C03": ("generated planted-fault search (one definite mismatch at a generated placement must be rejected; legal twin must stay accepted)", "", ""),
- "C04": ("generated planted-fault search (one constness/purity violation at generated nesting must be rejected; legal twin accepted)", "", ""),
- "C05": ("generated planted-fault search (shape-rule violations over generated blob/enum declarations; legal twin accepted and loads)", "", ""),
+ "C03": ("generated planted-fault search (one definite mismatch at a generated placement must be rejected; legal twin must stay accepted)",
+         "A well-typed generated base program plus one definite type mismatch (operators on literals of incompatible types, unary -/not, wrong arity/argument types of an annotated function, values contradicting annotations of variables/parameters/returns/fields, non-bool conditions, heterogeneous lists, calls of non-functions, void as a value) planted at a generated statement or expression site (function, closure, method, branch, arm, loop, do block, global initialiser, imported module): the unplanted base and the legal twin must be accepted, the planted program rejected with a type error and no output.",
+         "trusted: the catalogue's spellings are mismatches under the documented typing rules; rejection is attributed to the plant because the twin differing only there is accepted"),
+ "C04": ("generated planted-fault search (one constness/purity violation at generated nesting must be rejected; legal twin accepted)",
+         "A generated base program with one forbidden construct planted below 0-4 generated nesting levels: assignment to a constant (local, alias, parameter, case binding, global, imported), or inside a `pu` function an assignment / mutable definition / read of a mutable / call of an impure function, or an impure function where a `pu` type is declared. Base and legal twin accepted, violation rejected with a type error and zero bytes written. One open finding (an impure function passed through an `fn`-annotated parameter to a `pu` type) is excluded by signature.",
+         "an `fn` annotation is treated as 'purity not known'; any TypeError satisfies the property (the variant is recorded as a label)"),
+ "C05": ("generated planted-fault search (shape-rule violations over generated blob/enum declarations; legal twin accepted and loads)",
+         "Generated blob/enum declarations (1-6 members, type parameters) inside a generated base program plus one of 38 shape violations (missing/unknown field, unknown variant, non-exhaustive or over-complete case, tuple index past the end, tuple length mismatch, externblob instantiation, break/continue outside a loop, missing or malformed start) at a generated placement, directly or through unannotated parameters/returns/type parameters, in the main file or an imported module; violation and legal twin are rendered from the same choices: twin accepted and loadable, violation rejected with zero bytes written.",
+         "trusted: mini-Lua's loader for the twin; signature names kind and access path, not the placement"),
  "C06": ("generated programs with lexical corner cases checked against the Lua 5.3 loader rules (validity predicate)",
          "Generated programs with Lua-keyword field names, arbitrary string contents, extreme numerals, unused expressions, statements after ret, long bodies and many globals: whenever the compiler accepts, mini-Lua's loader (a port of lparser.c's rules incl. the 200-locals / 255-upvalues / C-levels limits) must accept the emitted chunk. Two open findings (200-locals limits) are excluded by exact signature.",
          "trusted: mini-Lua's loader equals luaL_loadbuffer on this subset; register/C-level estimates near the limit are treated as inconclusive"),
@@ -41,8 +47,12 @@ CHECKS = {
  "C14": ("metamorphic testing: two surface renderings (sugar/layout plans) of one generated program must emit identical bytes",
          "Default rendering vs a random plan choosing per site: call form (paren / prime / arrow), ret vs trailing expression, loop do vs loop true do, redundant parentheses, comments, blank lines, indentation, line breaks inside brackets, CRLF; both accepted, Lua identical up to the line number inside <!> messages.",
          "trusted: the printer only uses sugar where the grammar documents it as equivalent (prime calls where the greedy argument list cannot swallow anything, arrow calls for plain-name callees)"),
- "C15": ("generated planted-fault search over multi-file projects: first error must name the planted file and line", "", ""),
- "C16": ("invariant over repetitions: N in-process and cross-process compiles of generated (multi-error) inputs must be identical", "", ""),
+ "C15": ("generated planted-fault search over multi-file projects: first error must name the planted file and line",
+         "Valid 1-3 file projects built from line-oriented pieces (so every line number is known by construction) with generated preceding text shapes (long and non-ASCII comments, non-ASCII and multi-line string literals, multi-line constructs, blank runs, CRLF, tabs, trailing blanks) and one local error of 12 kinds planted at a generated file/line/context: the legal twin must compile, the planted project must be rejected and its first error must carry the planted file and line (either definition for duplicates). One open finding (top-level non-definition statement reported at the following token) is excluded by signature.",
+         "spellings whose natural location is elsewhere (open brackets, stray end/else, unterminated strings) are not planted; `use missing` (no span at all) is not judged"),
+ "C16": ("invariant over repetitions: N in-process and cross-process compiles of generated (multi-error) inputs must be identical",
+         "1-4 file projects from 15 classes (valid generated, wide declarations, import cycles/diamonds; several independent errors: unresolvable member types, unresolved names with equidistant candidates, duplicates, type errors, syntax errors, missing files, mutated corpus programs) are compiled 8 (accepted) / 24 (rejected) times in-process - after unrelated compilations, on a fresh thread, from another directory - and 3 times by the real `sylt` binary with a scrubbed different environment: Lua bytes, or every error field incl. rendered text and order, exit status, stdout and stderr must be identical.",
+         "probabilistic oracle: a hash-order dependence choosing among k>=2 results per compile is missed with probability k^(1-N) per case; stored cases are repeated 1024 times"),
  "C17": ("exhaustive enumeration of short strings + random token-fragment concatenations against an independent maximal-munch lexer and line index",
          "Every string of length <= 5 (quick) / <= 6 (thorough) over a 23-symbol alphabet covering every token class, all concatenations of <= 2/3 of 270 token fragments, and random fragment concatenations: tokens must tile the text, agree with the reference lexer in kind/payload/extent and carry exact line/column ranges. One open finding (a `D.` numeral before certain non-ASCII characters) is excluded by signature.",
          "trusted: the reference lexer's reading of the documented token regexes; the extent of Error tokens is only loosely constrained"),
